@@ -336,6 +336,7 @@ func init() {
 			{"check-all-loop", "a loop that rejects on a property of each element with an error return is not left early with a break (the elements after it would escape the check)", func(c *Ctx) { ruleCheckAllLoop(c, "pkg/consensus") }},
 			{"codec-guards", "where the encoder and the decoder of one consensus message both guard wire operations by comparing the same field with constants (the change-view reason), the two sets of constants agree", ruleCodecGuards},
 			{"decode-context", "a decoder of a consensus message whose wire shape depends on the state-root flag hands the flag on to every nested context-dependent value it creates", ruleDecodeContext},
+			{"context-construction", "every place of the node that builds a value whose wire shape depends on a context field (block.Header.StateRootEnabled, the consensus state-root flags) sets that field, in the literal or by an assignment in the same function (one tabled exception)", ruleContextConstruction},
 			{"proposal-dominators", "verifyBlock accepts only behind the height/timestamp/size/system-fee checks and per-transaction verification; verifyRequest only behind prev-hash/version/state-root/count checks; the block witness takes commits of the current view only, in validator order; the proposed transaction set is cut after (not before) adding the transaction that overflows a limit", ruleProposalDominators},
 			{"loop-confinement", "dBFT state and the service's loop-owned fields are not touched by anything reachable from the methods other goroutines call (OnPayload, OnTransaction, Shutdown, Name)", ruleLoopConfinement},
 		},
@@ -369,6 +370,7 @@ func init() {
 				ruleCheckAllLoop(c, "pkg/io", "pkg/core/transaction", "pkg/core/block", "pkg/network/payload", "pkg/vm/stackitem", "pkg/core/state")
 			}},
 			{"attr-budget", "the transaction decoder limits the attribute count by MaxAttributes less the signers count", ruleAttrBudget},
+			{"context-construction", "every place of the node that builds a value whose wire shape depends on a context field (block.Header.StateRootEnabled, the consensus state-root flags) sets that field, in the literal or by an assignment in the same function (one tabled exception)", ruleContextConstruction},
 			{"hash-canonical", "every cached identity (hash/size of transaction, header, extensible, notary request) is computed from the node's own encoding, or from received bytes only if the length decoder rejects non-minimal encodings", ruleHashCanonical},
 			{"codec-symmetry", "for every type with EncodeBinary and DecodeBinary the sequences of wire primitives on the writer/reader agree token by token when both are straight-line; otherwise the sets of primitive kinds agree", ruleCodecSymmetry},
 			{"codec-guards", "where the encoder and the decoder of one type both guard wire operations by comparing the same field with constants, the two sets of constants agree", ruleCodecGuards},
@@ -409,6 +411,7 @@ func init() {
 				ruleCheckAllLoop(c, "pkg/core", "pkg/core/mempool", "pkg/core/transaction", "pkg/core/fee")
 			}},
 			{"attr-budget", "the transaction decoder limits the attribute count by MaxAttributes less the signers count (the decoder is the only place that enforces the combined limit)", ruleAttrBudget},
+			{"context-construction", "every place of the node that builds a value whose wire shape depends on a context field (block.Header.StateRootEnabled, the consensus state-root flags) sets that field, in the literal or by an assignment in the same function (one tabled exception)", ruleContextConstruction},
 			{"attr-exhaustive", "every attribute kind has an arm in the binary decoder, the encoder and verifyTxAttributes; decoder and encoder reject unknown kinds", ruleAttrExhaustive},
 			{"hash-canonical", "a cached identity (hash/size) is computed from the node's own encoding, or from received bytes only if the length decoder rejects non-minimal encodings (the same content must be the same transaction in every accepted encoding)", ruleHashCanonical},
 			{"commit-point", "the main mempool is refreshed against the new ledger - after the block was published and the height advanced - so that a transaction expiring with the block does not stay pooled (blocks proposed from the pool are accepted by the ledger)", ruleCommitPoint},
